@@ -76,7 +76,9 @@ CLAIMED = {
               "law is sampled on the implementation with an independent winding-number evaluator. Partial by construction: Skia's "
               "own correctness is a hypothesis."),
         note=("Trusted: Lean kernel; no axioms beyond propext (core only); Spec/Region.lean; the EngineSpec hypotheses (validated by "
-              "sampling, epsilon band 2% of extent); harness/geom.py; harness/skia_trace.py."),
+              "sampling, epsilon band 2% of extent); harness/geom.py; harness/skia_trace.py. One recorded finding: on a witness pair "
+              "of evenodd operands with cubics skia-pathops returns a wrong union without raising (known_findings.json, "
+              "C13-skia-union-cubics-wrong-region) — the engine hypothesis fails there, nothing to repair in picosvg."),
         technique="Lean 4 proof relative to an engine specification (induction on the operand list) + recorded-call expression correspondence + sampled set law",
         ref="DESIGN.md §4 C13"),
     "C19": dict(
@@ -86,21 +88,31 @@ CLAIMED = {
               "(induction over the shape list); the per-shape decision of clip_to_viewbox (drop iff disjoint interiors, clip "
               "rectangle = the intersection, untouched iff the box already equals it). Model tied exactly (Fraction vs Rat). The "
               "cut geometry is Skia's (relative to EngineSpec, C13): the painted stack before/after clip_to_viewbox and the "
-              "tightness of bounding boxes are judged on the implementation with the independent renderer / flattened extrema."),
-        note=("Trusted: Lean kernel; propext/Classical.choice/Quot.sound; harness/render.py and geom.py; Skia bounds and op "
-              "(hypotheses, sampled). Group flattening after the clip is covered by the rendering judge only."),
+              "tightness of bounding boxes are judged on the implementation with the independent renderer / flattened extrema, on "
+              "converted documents and on picosvgs written around the viewBox (shapes over each border and corner, bounding boxes "
+              "that reach in while the geometry does not, groups the clip empties); the result must be a picosvg per Spec.Pico."),
+        note=("Trusted: Lean kernel; propext/Classical.choice/Quot.sound; harness/render.py and geom.py; Spec/Pico.lean; Skia "
+              "bounds and op (hypotheses, sampled). Group flattening after the clip is covered by the judges only. One repaired "
+              "defect (547b2dc), see known_findings.json."),
         technique="Lean 4 proof (order reasoning, induction on the shape list) + exact Fraction/Rat correspondence + independent renderer search",
         ref="DESIGN.md §4 C19"),
     "C18": dict(
         text=("Lean 4 theorems for every combination of the paint fields: might_paint = False implies display:none, or move-only, "
               "or no visible stroke and (no visible fill or a non-positive computed area); a displayed, drawing shape with a "
               "visible stroke or a visible fill of positive area is reported True; an engine error keeps the shape; display:none "
-              "decides first. The ladder, style application (parse_css_declarations + field coercion), the area consultation and "
+              "decides first. Under the compositing specification (Spec/Composite.lean, Spec/ShapePaint.lean) a shape reported as unable "
+              "to paint contributes the transparent colour at every canvas point, for every combination of display, paints, stroke "
+              "width and the three opacities (unpainted_paints_nothing), so removing it leaves any stack of layers unchanged "
+              "(prune_preserves_render); a moveto-only command sequence draws no segment under the path interpreter "
+              "(moveOnly_draws_nothing). The ladder, style application (parse_css_declarations + field coercion), the area consultation and "
               "remove_empty_subpaths are modelled and tied to the code with the area answers replayed from the recorded Skia calls; "
               "verdicts and both removal operations are judged against the independent renderer (a shape reported unable to paint "
-              "must paint nowhere; removals must not change any sampled colour)."),
+              "must paint nowhere; removals must not change any sampled colour), by a stroke law (visible stroke and more than "
+              "movetos => reported as painting), on a fixed grid of degenerate geometry x canonical paints and on raw documents "
+              "(group-level style, clipPath children that only serve as geometry)."),
         note=("Trusted: Lean kernel; core axioms only; Skia's area (oracle, sampled); harness/render.py. Document-level "
-              "remove_unpainted_shapes is covered by the rendering judge, its tree surgery is modelled under C01."),
+              "remove_unpainted_shapes is covered by the rendering judge, its tree surgery is modelled under C01. Two repaired "
+              "defects (2f088c3, a1858b9), see known_findings.json."),
         technique="Lean 4 proof (case analysis of the decision ladder) + replayed-oracle correspondence + renderer-judged search",
         ref="DESIGN.md §4 C18"),
     "C20": dict(
@@ -108,11 +120,15 @@ CLAIMED = {
               "either the shapes already agree within the tolerance and it is the identity, or the reported matrix (after the "
               "rounding search) passes the verification gate — applying it to the first affine-friendly outline reproduces the "
               "second command for command within the tolerance; identical outlines yield the identity. Proved by induction over the "
-              "rounding range and case analysis of the three stages; no assumption about Float arithmetic is needed. The model is "
-              "tied to the code on (s, T(s)), unrelated and near-miss pairs (None / matrix within ulps) and every reported matrix is "
-              "re-verified on the implementation by an independent outline mapper; exact translations must be found."),
-        note=("Trusted: Lean kernel; core axioms only; the independent mapper in harness/props/c20.py (arc-free outlines); Lean "
-              "Float = libm. Not proved: that the gate's per-command comparison implies geometric image (interp-level), arcs."),
+              "rounding range and case analysis of the three stages; no assumption about Float arithmetic is needed. The gate of the "
+              "model mirrors the code's: per command on the affine-friendly form and, when there are arcs, once more on the arcs' "
+              "cubic form. The model is tied to the code on (s, T(s)), unrelated, near-miss, arc-flag and shifted-subpath pairs "
+              "(None / matrix within ulps) and every reported matrix is re-verified on the implementation: the transform is applied "
+              "to the outline the Lean path interpreter Spec.interp gives the first path and compared with the second's, control "
+              "points command for command and arcs as sampled curves; exact translations must be found."),
+        note=("Trusted: Lean kernel; core axioms only; the outline comparison in harness/props/c20.py; Spec/PathInterp.lean; Lean "
+              "Float = libm. Not proved: that the gate's per-command comparison implies geometric image (interp-level). Two "
+              "repaired defects (780b94f, e5e453a), see known_findings.json."),
         technique="Lean 4 proof (control-structure soundness on the Float model) + ulp-level correspondence + independent re-verification",
         ref="DESIGN.md §4 C20"),
     "C01": dict(
@@ -145,7 +161,9 @@ CLAIMED = {
               "viewport clip) is not among the ids of the tree searched and carries the requested prefix (induction over the search); "
               "_add_to_defs neither loses nor duplicates members and adds the new element exactly when it has an id; addToDefs_ids_nodup — inserting an element whose id is not among the ids in defs "
               "keeps them pairwise distinct wherever the sorted insert puts it (with newId_fresh: gradient copies never create a "
-              "duplicate). The document-level "
+              "duplicate); the copy _resolve_use instances carries no id anywhere (use_copy_has_no_ids, mutual induction over the "
+              "id-stripping rewrite and the renumbering of the copy), and of the pieces of a stroked shape at most one keeps an id "
+              "(stroke_split_ids). The document-level "
               "invariant (unique ids, every url(#x) fill resolves to a gradient in defs, no unreferenced gradient, no href) is judged on "
               "every converted document from a generator that stresses shared references and colliding generated ids; the pipeline "
               "model is tied to the code on the same documents."),
@@ -243,7 +261,8 @@ CLAIMED = {
               "the source's and the converted document's gradients give at 64 interior points per document (independent "
               "gradient evaluator), every output gradient self-contained, and the pipeline model vs the implementation incl. "
               "every rewritten gradient attribute. Not proved: stop inheritance along href chains as a whole and spreadMethod handling."),
-        note="Trusted: Lean kernel; standard axioms; harness/render.py gradient evaluator.",
+        note=("Trusted: Lean kernel; standard axioms; harness/render.py gradient evaluator. One repaired defect (c1c309f: a gradient "
+              "used as stroke paint was not transformed with its shape), see known_findings.json."),
         technique="Lean 4 proof (affine and gradient-parameter algebra) + pipeline correspondence + rendering judge",
         ref="DESIGN.md §4 C06"),
     "C15": dict(
